@@ -7,6 +7,7 @@
 mod prng;
 mod util;
 mod graphio;
+mod interp;
 include!(concat!(env!("OUT_DIR"), "/registry.rs"));
 
 use prng::Rng;
